@@ -371,6 +371,25 @@ deriving DecidableEq, Repr
 def construct (c : Cfg) : Res Constructed :=
   (build c).bind fun b => (initHeads c b c.heads).bind fun hi => .ok { built := b, headIn := hi }
 
+/-- `Model.__init__` with `fixes/C14-head-in-channels.patch`: the head's `in_channels` are read from the
+    decoder block the head will be applied to (`decoder_stack[strides.index(stride)].refine_convs_filters`)
+    instead of being re-derived with `round` / `**`.  Not what the pinned tree does: used by the driver
+    only when the harness detects the patched behaviour. -/
+def initHeadsFixed (b : Built) : List Head → Res (List Nat)
+  | [] => .ok []
+  | h :: hs =>
+    (findIdx (labels b.dec) h.os).bind fun j =>
+      (initHeadsFixed b hs).bind fun xs => .ok ((b.dec.map (·.out)).getD j 0 :: xs)
+
+def constructFixed (c : Cfg) : Res Constructed :=
+  (build c).bind fun b => (initHeadsFixed b c.heads).bind fun hi => .ok { built := b, headIn := hi }
+
+/-- declared `(in_channels, out_channels)` of every stride-1 convolution of an encoder, in order -/
+def encConvs : List Op → List (Nat × Nat)
+  | [] => []
+  | .conv a b :: ops => (a, b) :: encConvs ops
+  | _ :: ops => encConvs ops
+
 /-! ## forward -/
 
 def optRes {α} : Option α → Res α
